@@ -1,14 +1,22 @@
 """Execute a harness-supplied Python source against the real deal and call functions of it.
-stdin: {"src": text, "calls": [[name, [args]]...]}; stdout: JSON list of results (or {"error": ...})."""
-import sys, json, traceback, warnings
+stdin: {"src": text, "calls": [[name, [args]]...]}; stdout: JSON list of results (or {"error": ...}).
+Whatever the executed code prints goes to a buffer (a probe may exercise code that prints exactly when the code under test is
+broken); the JSON result is written to the real standard output at the end."""
+import sys, json, traceback, warnings, io
 warnings.simplefilter('ignore')
 req = json.load(sys.stdin)
+real_out = sys.stdout
+sys.stdout = io.TextIOWrapper(io.BytesIO(), encoding='utf-8', write_through=True)      # a real text stream object, not the terminal's
 ns = {}
-exec(compile(req['src'], '<pyexec>', 'exec'), ns)
 out = []
-for name, args in req['calls']:
-    try:
-        out.append(ns[name](*args))
-    except BaseException as e:
-        out.append({'error': ''.join(traceback.format_exception_only(type(e), e)).strip()})
-json.dump(out, sys.stdout, default=str)
+try:
+    exec(compile(req['src'], '<pyexec>', 'exec'), ns)
+    for name, args in req['calls']:
+        try:
+            out.append(ns[name](*args))
+        except BaseException as e:
+            out.append({'error': ''.join(traceback.format_exception_only(type(e), e)).strip()})
+except BaseException as e:
+    out = [{'error': 'module level: ' + ''.join(traceback.format_exception_only(type(e), e)).strip()}] * max(1, len(req.get('calls', [])))
+json.dump(out, real_out, default=str)
+real_out.flush()
